@@ -23,3 +23,20 @@ claim("C11",
  "Delegation store lifecycle, one operation (Stake, Unstake, Withdraw, UpdateWithdrawReward) with arbitrary non-negative amount from an arbitrary state satisfying the representation invariant over 2 validators x 2 delegators: the invariant (validator stake = sum of its delegators' locked amounts; everything >= 0) is preserved, unstake moves exactly the amount into the maturing record of the given height, only the block-end step of that height makes it withdrawable (exactly once, record cleared), withdraw never exceeds the withdrawable amount, and a delegator's locked+maturing+withdrawable potential changes only by stake/withdraw. Handler level (maturity height = now + MaturityTime, charge = amount) is covered by the C02 staking harnesses.",
  "Store level; refused operations may leave partial writes that the caller's transaction session discards (C06). The frozen-validator guard and penalties are not yet encoded here. Histories are covered by induction on the invariant (argued).",
  "DESIGN.md §6 C11")
+
+claim("C04",
+ "Obligation A (mempool): the real Validate of SEND is executed symbolically on a transaction whose signature list is arbitrary (count, signer key of each, and what each signature was made over: this transaction, a copy differing in fee gas/price/currency, memo, type or payload amount by symbolic deltas, or non-signature bytes); accepted implies exactly the required signature by the From key over exactly the transaction's signed content. Obligation D (delivery): a transaction Validate rejects must have no effect when delivered - violated by design of txDeliverer, reported as a known finding.",
+ "SEND only so far (ValidateBasic is shared by all kinds; the per-kind Signers() lists and the three other key algorithms are not yet encoded); cryptography is the functional signature stub (unforgeability assumed); JSON envelope parsing is the blob model.",
+ "DESIGN.md §6 C04")
+claim("C05",
+ "The real txChecker/txDeliverer with an in-memory transaction index: a SEND that was executed and indexed is refused by CheckTx and changes no ledger cell when delivered again byte-identically (holds for all amounts, fees, roles); the same signed content in another byte encoding is examined too and is the known finding (replay key = hash of received bytes).",
+ "SEND only; the index is a harness implementation of Tendermint's TxIndexer contract; OLVM nonce handling not yet encoded. Re-encodings are refuted by witness, their absence cannot be shown by this technique.",
+ "DESIGN.md §6 C05")
+claim("C06",
+ "For every encoded kind (SEND, SENDPOOL, staking and network delegation kinds), in both regimes (admitted by Validate / delivered directly), a delivered transaction with non-zero code leaves the block-level write cache (keys, order, values) and every ledger cell unchanged, for all payloads, fees and funded states within the bound.",
+ "One transaction per block; in-memory fields of the stores and the EVM object cache are not compared yet; kinds not yet encoded are outside.",
+ "DESIGN.md §6 C06")
+claim("C18",
+ "For every encoded kind with hostile payload fields (any integer amount, unregistered/empty/foreign currency, any role assignment, zero signatures) no feasible path of txDeliverer (and Validate + deliver in the admitted regime) ends in a panic, os.Exit (logger.Fatal) or application close; every crash outcome is a first-class path result decided by the solver and replayed in a child process.",
+ "Kinds not yet encoded are outside; byte strings that are not a well-formed envelope are outside (the JSON parser is not encoded).",
+ "DESIGN.md §6 C18")
